@@ -56,8 +56,14 @@ def World.drain (w : World) (id : Nat) (evs : List Event) (r : EpRec) : World ×
   evs.reverse.foldl (fun (acc : World × EpRec) ev =>
     let (w, r) := acc
     match ev with
-    | .out bytes => (w.say s!"out {id} {bytes.length} {hex64 (fnv64 bytes)}", { r with outbox := r.outbox.push bytes })
-    | .recv bs => (w.say (s!"recv {id} {bs.length}" ++ String.join (bs.map showBunch)), r)
+    | .out bytes => (w.say s!"out {id} {bytes.length} {hex64 (fnv64 bytes)} {(bytes.getLast?.getD 0).toNat}", { r with outbox := r.outbox.push bytes })
+    | .recv bs =>
+      let w := w.say (s!"recv {id} {bs.length}" ++ String.join (bs.map showBunch))
+      let w := if bs.length > 1 then
+          let j := Large.join bs
+          w.say s!"joined {id} {j.length} {hex64 (fnv64 (bitsToBytes j))}"
+        else w
+      (w, r)
     | .status pid ack => (w.say s!"status {id} {pid} {boolDigit ack}", r)
     | .connect re => (w.say s!"connect {id} {boolDigit re}", r)
     | .accept re addr => (w.say s!"accept {id} {boolDigit re} {addr}", r)
@@ -135,7 +141,11 @@ def World.deliverConn (w : World) (id : Nat) (d : List UInt8) (wrapper : Bool) :
         ({ w with rng := rng }.putConn id r wr).say "ret w"
       else
         let (ep, rng, ok) := wr.ep.incoming floatOps w.env w.rng d
-        ({ w with rng := rng }.putConn id r { wr with ep := ep }).say s!"ret {boolDigit ok}"
+        let w := { w with rng := rng }.putConn id r { wr with ep := ep }
+        let w := if ep.c.inPacketId != wr.ep.c.inPacketId then
+            w.say s!"acc {id} {ep.c.inPacketId} {boolDigit (ep.c.notify.hist.headD false)}"
+          else w
+        w.say s!"ret {boolDigit ok}"
     | _ => w
   | none => w
 
